@@ -107,6 +107,16 @@ def hostile_files():
     F.append(('ecl', 'th07', 'void sub0() { sub0(); sub1(1, 2.0); }\nvoid sub1(int x, float y) { sub0(); }\nscript timeline0 {}'))
     F.append(('ecl', 'th07', 'void sub0() { @sub0(); }\nscript timeline0 {}'))
     F.append(('ecl', 'th10', 'meta { ecli: [], anim: [] }\nvoid main() { }'))
+    # calls in places that have no way to express them: call sugar inside a timeline, functions declared inside a sub or a script, inline / const functions
+    for g in ('th06', 'th07', 'th08', 'th095'):
+        F.append(('ecl', g, 'void Sub0() {}\nscript timeline0 {\n Sub0();\n}\n'))
+        F.append(('ecl', g, 'void Sub0() {\n void helper() { }\n helper();\n}\nscript timeline0 {}\n'))
+        F.append(('ecl', g, 'void Sub0() {\n int helper(int x) { return x; }\n I0 = helper(3);\n}\nscript timeline0 {}\n'))
+        F.append(('ecl', g, 'inline void h() { }\nconst int k() { return 3; }\nvoid Sub0() {\n h();\n I0 = k();\n Sub0();\n}\nscript timeline0 {\n h();\n}\n'))
+        F.append(('ecl', g, 'void Sub0(int a) {\n Sub0(a + 1);\n Sub1(1.5);\n}\nvoid Sub1(float x) {\n Sub0(_S(x));\n Sub0();\n Sub0(1, 2);\n}\nscript timeline0 {}\n'))
+    F.append(('anm', 'th12', 'entry { path: "a", has_data: false, sprites: {} }\nscript s {\n void helper() { }\n helper();\n}\nvoid top() { }\nscript t {\n top();\n}\n'))
+    F.append(('msg', 'th08', 'meta { table: { 0: {script: "s"} } }\nvoid f() { }\nscript s {\n f();\n}\n'))
+    F.append(('std', 'th12', 'meta { unknown: 0, anm_path: "a.anm", objects: {}, instances: [] }\nvoid f() { }\nscript main {\n f();\n void g() { }\n g();\n}\n'))
     F.append(('std', 'th06', 'meta { unknown: 0, stage_name: "x", bgm: [], objects: {}, instances: [] }\nscript main {}'))
     F.append(('std', 'th06', 'meta { unknown: 0, stage_name: "x", bgm: [{path:"a",name:"b"},{path:"a",name:"b"},{path:"a",name:"b"},{path:"a",name:"b"}], objects: {}, instances: [] }\nscript main { ins_3(@blob="00000000"); }'))
     F.append(('std', 'th06', 'meta { unknown: 0, stage_name: "x", bgm: [{path:"a",name:"b"},{path:"a",name:"b"},{path:"a",name:"b"},{path:"a",name:"b"}], objects: {}, instances: [nope {pos: [0.0,0.0,0.0]}] }\nscript main { }'))
